@@ -34,6 +34,12 @@ func c08Struct(w *core.W, j int) {
 			continue
 		}
 		touched := handMutate(g, rr)
+		if l.Type == 42 || l.Type == 41 || l.Type == 64 || l.Type == 65 {
+			// types whose RDATA is a list of structured items: more than one try at reaching an item
+			for x := 0; x < 3; x++ {
+				touched = append(touched, handMutate(g, rr)...)
+			}
+		}
 		if len(touched) == 0 {
 			continue
 		}
@@ -173,6 +179,19 @@ func handMutateStruct(g *model.Gen, sv reflect.Value) []string {
 				}
 				f.Set(reflect.ValueOf(ip))
 				what = "ip"
+			case reflect.TypeOf([]dns.APLPrefix{}):
+				ps, _ := f.Interface().([]dns.APLPrefix)
+				if len(ps) == 0 {
+					continue
+				}
+				x := &ps[r.IntN(len(ps))]
+				n := len(x.Network.IP)
+				if n != 4 && n != 16 {
+					n = 4
+				}
+				x.Network.IP = net.IP(g.Bytes(n))
+				x.Network.Mask = net.IPMask(g.Bytes(n)) // not a CIDR mask: wildcard masks, holes
+				what = "apl-mask"
 			case reflect.TypeOf([]string{}):
 				var ss []string
 				for x := r.IntN(4); x > 0; x-- {
